@@ -28,6 +28,7 @@ impl Family for C19Family {
             real: &["Authenticator::{make_credential,get_assertion}", "Client::{register,authenticate}", "Arc<tokio::sync::Mutex<S>> and Arc<tokio::sync::RwLock<S>> CredentialStore wrappers", "tokio::sync::{Mutex,RwLock}", "MemoryStore"],
             stubs: &["executor (SimExec)", "SimStore seam + reference store", "SimUser", "seeded RNG behind the hook"],
             crash_isolated: false,
+            fresh_thread: true,
         }
     }
 
@@ -246,6 +247,17 @@ impl Family for C19Family {
                 }
             }
             let max = uses.iter().map(|u| u.2).max().unwrap();
+            // a stale write-back can only store a value that its own ceremony reported; a stored
+            // value that no successful assertion carries is something else
+            let never_reported = rec
+                .events
+                .iter()
+                .any(|e| matches!(&e.ev, Ev::Applied { save: false, cred, .. } if cred.id == *id))
+                && stored.counter.is_some_and(|s| !uses.iter().any(|u| u.2 == s))
+                && rec.ops.iter().all(|o| o.result.is_ok());
+            if never_reported {
+                j.fail("stored-counter-never-reported", format!("credential {}: the store holds counter {:?} but the successful assertions reported {:?}", crate::model::hex(id), stored.counter, uses.iter().map(|u| u.2).collect::<Vec<_>>()));
+            }
             let problem = if let Some((first, second, ctr)) = dup {
                 Some(format!("assertions a{}#{} and a{}#{} with credential {} both carry signature counter {}", first.0, first.1, second.0, second.1, crate::model::hex(id), ctr))
             } else if stored.counter != Some(max) {
